@@ -65,9 +65,17 @@ def global_elem(m, name):
 
 def main():
     chk = Check('C04')
+    tasks = build(chk, os.environ.get('VERIF_ONLY', ''))
+    chk.run_tasks(tasks)
+    chk.discharge()
+    chk.finish()
+
+
+def build(chk, only=''):
+    """append this check's tasks (restricted to the groups named in `only`) to a task list; also used by the checks that
+    depend on this one's contracts (common.include_dependency)"""
     prog = load_prog()
     gl = load_globals(prog)
-    only = os.environ.get('VERIF_ONLY', '')
     chk.summaries.update(models.VALUE_MODEL_SUMMARY)
     chk.summaries.update(GA.SUMMARY)
     tasks = []
@@ -327,6 +335,7 @@ def main():
                 log = {}
                 m = gm(ctx)
                 install_cuts(m, ctx, log)
+                m.grp_root = lambda b: 'P' if b.rstrip('~') in ('P', 'Pbeta') else b   # -P, lambda*P are the point at infinity iff P is
                 m.unwind = 40
                 p = m.grp_new(GA.base('P'))
                 v = p if alias else m.grp_new(GA.INVALID)
@@ -348,7 +357,7 @@ def main():
                     # a path that never split the scalar (e.g. a short-scalar fast path): the windows must then spell s itself
                     S = tm.lift(cat_limbs(sym_limbs('s')), 256)
                     full = sum(z3.BV2Int(low.lo(tm.extract(S, 4 * j + 3, 4 * j))) * (16 ** j) for j in range(64))
-                    return (pc, z3.And([got.coeff('P') == full] + [got.coeff(k) == 0 for k in got.c if k != 'P']), 'direct')
+                    return (pc, z3.And([GA.eq_coeff(m, got, 'P', full)] + [GA.eq_coeff(m, got, k, 0) for k in got.c if k != 'P']), 'direct')
                 ctx.check(len(log.get('idx', [])) == 64, '64-window-lookups')
                 for kk, hobj, b in ((k1, log['halves'][0], 'P'), (k2, log['halves'][1], 'Pbeta')):
                     neg = tm.ult(half, kk, 256)
@@ -361,14 +370,14 @@ def main():
                         nb = nb_of(b)
                         base0, ctrl = log['condneg'][nb]
                         ctx.check(base0 == b and tm.eq(tm.eq(ctrl, 0, 64), tm.bnot(neg), 0), 'bv:point-negated-iff-half>(n-1)/2')
-                        outs.append(got.coeff(nb) == lo16)
+                        outs.append(GA.eq_coeff(m, got, nb, lo16))
                         used.add(nb)
                     else:
                         # explicit branches: on this path `neg` is decided by the path condition
                         sign = z3.If(low.lo(neg), -1, 1) if isinstance(neg, tm.T) else z3.IntVal(-1 if neg else 1)
-                        outs.append(got.coeff(b) == sign * lo16)
+                        outs.append(GA.eq_coeff(m, got, b, sign * lo16))
                         used.add(b)
-                return (pc, z3.And(outs + [got.coeff(k) == 0 for k in got.c if k not in used]), 'split')
+                return (pc, z3.And(outs + [GA.eq_coeff(m, got, k, 0) for k in got.c if k not in used]), 'split')
             lbl = 'ladder/%s[%s]' % (fn, 'v=p' if alias else 'v|p')
             paths = sub.explore(lbl, h, mode='bv')
             for i, p in enumerate(paths):
@@ -386,9 +395,7 @@ def main():
         chk.notes.append('composition: ladder/* gives v = (s1*|k1| + s2*|k2|*lambda) P restricted to the low 16 bytes; bound/* shows the high 16 bytes are zero; '
                          'split/dataflow + const/* give k1 + k2*lambda = s (mod n); hence v = s*P')
 
-    chk.run_tasks(tasks)
-    chk.discharge()
-    chk.finish()
+    return tasks
 
 
 if __name__ == '__main__':
